@@ -591,23 +591,31 @@ void c14_case(Tape& t, Ctx& ctx) {
       }
       (void)Cb;
       VCHECK(ctx, fabsl((ld)b.getEnergy() - (ld)E) <= 1e-8L * fabsl((ld)E) * (1 + nc) + 1e-280L, "reversal-energy", who << ": energy of the reversed problem " << g17(b.getEnergy()) << " differs from " << g17(E));
-      Grads Gb = b.getEnergyGrad();
+      const MatL pts0 = pts, bnd0 = bnd; const VecL tms0 = tms;
+      for (int via = 0; via < 2 && !ctx.failed; ++via) {
+      // mirrored gradients, obtained (0) directly and (1) by propagating the energy's partial gradients through the spline
+      const char* vname = via == 0 ? "getEnergyGrad()" : "propagateGrad(energy partials)";
+      Grads Gb = via == 0 ? b.getEnergyGrad() : b.propagateGrad(b.getEnergyPartialGradByCoeffs(), b.getEnergyPartialGradByTimes());
+      MatL pts, bnd; VecL tms;
+      if (via == 0) { pts = pts0; bnd = bnd0; tms = tms0; }
+      else { Grads Go = sp.propagateGrad(sp.getEnergyPartialGradByCoeffs(), sp.getEnergyPartialGradByTimes()); flatten<D, S>(Go, N, pts, bnd, tms); }
       MatL pr, br; VecL trv;
       flatten<D, S>(Gb, N, pr, br, trv);
       ld st = 0; for (int i = 0; i < N; ++i) st = std::max(st, fabsl(tms(i)));
       for (int i = 0; i < N; ++i)
-        VCHECK(ctx, fabsl(trv(i) - tms(N - 1 - i)) <= TAU_ADJ * st * 10 + tau_zero(S) * natT + 1e-280L, "reversal-gradients", who << ": duration gradient " << i << " of the reversed problem is " << lg(trv(i)) << ", mirrored original " << lg(tms(N - 1 - i)));
+        VCHECK(ctx, fabsl(trv(i) - tms(N - 1 - i)) <= TAU_ADJ * st * 10 + tau_zero(S) * natT + 1e-280L, "reversal-gradients", who << " via " << vname << ": duration gradient " << i << " of the reversed problem is " << lg(trv(i)) << ", mirrored original " << lg(tms(N - 1 - i)));
       for (int d = 0; d < D; ++d) {
         ld sp_ = 0; for (int r = 0; r <= N; ++r) sp_ = std::max(sp_, fabsl(pts(r, d)));
         for (int r = 0; r <= N; ++r)
-          VCHECK(ctx, fabsl(pr(r, d) - pts(N - r, d)) <= TAU_ADJ * sp_ * 10 + tau_zero(S) * natP[d] + 1e-280L, "reversal-gradients", who << ": point gradient " << r << " coordinate " << d << " of the reversed problem is " << lg(pr(r, d)) << ", mirrored original " << lg(pts(N - r, d)));
+          VCHECK(ctx, fabsl(pr(r, d) - pts(N - r, d)) <= TAU_ADJ * sp_ * 10 + tau_zero(S) * natP[d] + 1e-280L, "reversal-gradients", who << " via " << vname << ": point gradient " << r << " coordinate " << d << " of the reversed problem is " << lg(pr(r, d)) << ", mirrored original " << lg(pts(N - r, d)));
         for (int m = 0; m < 3; ++m) {
           ld sgn = ((m + 1) & 1) ? -1.0L : 1.0L;
           ld sb = std::max(std::max(fabsl(bnd(m, d)), fabsl(bnd(3 + m, d))), std::max(fabsl(br(m, d)), fabsl(br(3 + m, d))));
           ld fl = tau_zero(S) * natP[d] * RefSpline::ipow(Tmax, m + 1) + 1e-280L;
           VCHECK(ctx, fabsl(br(m, d) - sgn * bnd(3 + m, d)) <= TAU_ADJ * sb * 10 + fl && fabsl(br(3 + m, d) - sgn * bnd(m, d)) <= TAU_ADJ * sb * 10 + fl, "reversal-gradients",
-                 who << ": boundary gradient of order " << m + 1 << " coordinate " << d << " is not swapped with sign (-1)^m under time reversal: start " << lg(br(m, d)) << " vs " << lg(sgn * bnd(3 + m, d)) << ", end " << lg(br(3 + m, d)) << " vs " << lg(sgn * bnd(m, d)));
+                 who << " via " << vname << ": boundary gradient of order " << m + 1 << " coordinate " << d << " is not swapped with sign (-1)^m under time reversal: start " << lg(br(m, d)) << " vs " << lg(sgn * bnd(3 + m, d)) << ", end " << lg(br(3 + m, d)) << " vs " << lg(sgn * bnd(m, d)));
         }
+      }
       }
       bool asym = false; for (int i = 0; i < N; ++i) if (c.T[i] != c.T[N - 1 - i]) asym = true;
       ctx.nontrivial = N >= 3 && asym;
